@@ -32,7 +32,11 @@
 // Process-wide state: store.blockCache is one LRU keyed by height for the whole process. Nodes of
 // one Network live in one process, so by default (Network.IsolateProcessCaches) the cache is purged
 // whenever the harness switches from one node to another; this makes each node behave as its own
-// process. A driver that wants to observe the effect of cache contents switches the flag off.
+// process. With the flag off all nodes share the cache, which is wrong for more than one node (a
+// node at height 1 would read another node's block 1 as "the last block"): keep it on and sample
+// warm/cold cache contents by running one node for several heights in a row, and by Reopen().
+// A second process-wide cache, crypto's signature cache, is keyed by (key, message, signature) and
+// is shared on purpose.
 package node
 
 import (
@@ -432,6 +436,43 @@ func (nd *Node) StateRoot(height uint64) []byte {
 	return nil
 }
 
+// Balance reads an account balance from the node's working FSM view (0 when the account is absent).
+func (nd *Node) Balance(address []byte) uint64 {
+	nd.enter()
+	a, err := nd.C.FSM.GetAccount(crypto.NewAddress(address))
+	if err != nil || a == nil {
+		return 0
+	}
+	return a.Amount
+}
+
+// BlockEvents returns the indexed events of a height, marshalled, in index order.
+func (nd *Node) BlockEvents(height uint64) (out []string) {
+	nd.enter()
+	br, err := nd.C.FSM.LoadBlock(height)
+	if err != nil || br == nil || br.BlockHeader == nil || br.BlockHeader.Height != height {
+		return nil
+	}
+	for _, e := range br.Events {
+		bz, _ := lib.Marshal(e)
+		out = append(out, hex.EncodeToString(bz))
+	}
+	return
+}
+
+// MaxBlockSize is the transaction-bytes budget of a block (params.blockSize - header allowance).
+func (nd *Node) MaxBlockSize() uint64 {
+	nd.enter()
+	m, err := nd.C.FSM.GetMaxBlockSize()
+	if err != nil {
+		panic(err)
+	}
+	return m
+}
+
+// MempoolOrder returns the mempool's transactions in the order a proposal executes them.
+func (nd *Node) MempoolOrder() [][]byte { return nd.C.Mempool.GetTransactions(^uint64(0)) }
+
 // QCByHeight is the archive read (store.GetQCByHeight through the FSM).
 func (nd *Node) QCByHeight(height uint64) (*lib.QuorumCertificate, lib.ErrorI) {
 	nd.enter()
@@ -510,7 +551,9 @@ func (nd *Node) StateDigest() string {
 	return fmt.Sprintf("%d:%s", len(d), hex.EncodeToString(h.Sum(nil))[:24])
 }
 
-// WorkingRoot computes the state root of the working view (store.Root()).
+// WorkingRoot computes the state root of the working view (store.Root()). NOTE: Root() builds and
+// keeps the store's tree object for the pending writes, so this is not a pure observation; do not
+// call it between operations whose equality you are testing.
 func (nd *Node) WorkingRoot() string {
 	nd.enter()
 	r, err := nd.C.FSM.Store().(lib.StoreI).Root()
